@@ -57,6 +57,9 @@ var c10Corpus = []string{
 	"a: {style.fill: red; style.opacity: 0.4};; a.style.fill: null",
 	"x -> y;; (x -> y)[0].style.stroke: red;; (x -> y)[0].style.stroke: null",
 	"x -> y: hello;; (x -> y)[0]: null;; x -> y",
+	"x -> y;; (x -> y)[0].style.opacity: 1;; (x -> y)[0]: {style.opacity: null}",
+	"x -> y: {style.opacity: 1};; (x -> y)[0]: {style.opacity: null}",
+	"x -> y;; (x -> y)[0].label: hi;; (x -> y)[0]: {label: null; style.stroke: red};; x -> y",
 	"x: hello {shape: circle};; x: null;; x",
 	"x: hello {shape: circle};; x: null;; X: again",
 	"A.b -> a.c;; (a.b -> A.C)[0]: hi;; a: {(b -> c)[0].style.stroke: red}",
